@@ -68,7 +68,7 @@ def run_verus_unit(uname, workdir, prop=None):
     res['unit_file'] = path
     res['unit_lines'] = text.count('\n')
     ulines = text.split('\n')
-    r = run_verus(path, rlimit=getattr(mod, 'RLIMIT', None))
+    r = run_verus(path, rlimit=getattr(mod, 'RLIMIT', None), extra=getattr(mod, 'VERUS_ARGS', ()))
     res['cmd'] = r['cmd']
     res['wall'] = r['wall']
     res['drops'] = u.drops
@@ -159,7 +159,8 @@ def run_verus_unit(uname, workdir, prop=None):
                 if m:
                     label = m.group(1)
                     break
-        if kind == 'assert' and o and o.get('line') is None and fnkey in u.fns and u.fns[fnkey].get('proof_label'):
+        in_proof_text = bool(line) and line - 1 < len(ulines) and re.search(r'\bproof\s*\{[^}]*$', ulines[line - 1][:prim[0].get('column_start', 1) - 1] if prim else '') is not None
+        if kind == 'assert' and o and (o.get('line') is None or in_proof_text) and fnkey in u.fns and u.fns[fnkey].get('proof_label'):
             # an assertion inside proof text spliced in by the unit: it is a proof step of the named clause
             label = u.fns[fnkey]['proof_label']
         if fnkey.startswith('canary:'):
